@@ -14,6 +14,33 @@ ARRAYMAP_INDEX = ("<weechess_core::utils::ArrayMap<I, T> as core::ops::index::In
                   "weechess_core::utils::ArrayMap::<I, T>::index")
 
 
+def body_fingerprint(prog, name):
+    """Hash of the multiset of callees of a function (its name and line numbers do not enter): used only to recognise a reviewed
+    function after a rename."""
+    import hashlib
+    from facts import callee_name
+    b = prog.raw_body(name) if hasattr(prog, "raw_body") else prog.body(name)
+    if b is None:
+        return None
+    names = sorted(callee_name(t) if "callee" in t else "<indirect>" for bb, t in b.calls())
+    return hashlib.sha1("\n".join(names).encode()).hexdigest()[:16]
+
+
+def site_subject(prog, body_name, site, tb=None):
+    """What an `unwrap`/`expect`-like call site unwraps: the receiver expression with parameters by name.  Lets a review follow the
+    expression when it is moved into a helper of the same impl / module (call sites carry no operands in their key)."""
+    if site.term.get("k") != "call" or not site.term.get("args"):
+        return None
+    b = prog.raw_body(body_name) if hasattr(prog, "raw_body") else prog.body(body_name)
+    if b is None:
+        return None
+    tb = tb or TermBuilder(prog, site.body)
+    try:
+        return panics._named(site.body, show(tb.operand(site.term["args"][0])))
+    except Exception:
+        return None
+
+
 def load_reviewed(pid):
     with open(os.path.join(VERIF, "tables", "reviewed_sites.json")) as fh:
         return {(e["function"], e["key"]): e for e in json.load(fh)["sites"] if pid in e["properties"]}
@@ -110,6 +137,17 @@ def discharge_call(prog, ctx, site, fa, tb, eng):
     base = n.split("::")[-1]
     if n in panics.BENIGN:
         return "benign: " + panics.BENIGN[n]
+    # an adapter's own implementation of an Iterator method (`<Filter<I, P> as Iterator>::count`) is the trait method for this purpose
+    m_ = re.match(r"^<.* as core::iter::traits::iterator::Iterator>::(\w+)$", n)
+    if m_ and m_.group(1) != "next" and ("core::iter::traits::iterator::Iterator::" + m_.group(1)) in panics.BENIGN and "ops::range::Range" not in n:
+        return "benign: " + panics.BENIGN["core::iter::traits::iterator::Iterator::" + m_.group(1)]
+    # thread::Builder::spawn(..).unwrap()/expect(): what thread::spawn does internally
+    if base in ("unwrap", "expect") and t["args"]:
+        recv = tb.operand(t["args"][0])
+        if recv[0] == "call" and recv[1].startswith("std::thread::builder::Builder::spawn"):
+            return "benign: " + panics.BENIGN["std::thread::spawn"]
+    if n.startswith("std::thread::builder::Builder::spawn") or n.startswith("std::thread::builder::Builder::name") or n == "std::thread::builder::Builder::new":
+        return "benign: configures / creates a thread and returns Err on failure; no panic of its own"
     if n.startswith("std::thread::functions::spawn") or n.startswith("std::thread::spawn"):
         return "benign: " + panics.BENIGN["std::thread::spawn"]
     if base in ("get_or_init", "get_or_try_init") and ("once_lock::OnceLock" in n or "cell::once::OnceCell" in n) and len(t["args"]) == 2:
@@ -293,7 +331,9 @@ def discharge_site(prog, ctx, n, site, fa, tb, eng, reviewed, used_reviews, nume
                     return "rule", "gen_range over the constant non-empty range %s..=%s" % (lo, hi)
         if "sync::atomic::Atomic" in nme and nme.split("::")[-1] in ("load", "store"):
             ords = [show(tb.operand(a)) for a in site.term["args"][1:]]
-            if any("Relaxed" in o or "SeqCst" in o for o in ords):
+            # load panics for Release / AcqRel, store panics for Acquire / AcqRel
+            valid = ("Relaxed", "SeqCst", "Acquire") if nme.split("::")[-1] == "load" else ("Relaxed", "SeqCst", "Release")
+            if ords and any(v in ords[-1] for v in valid) and "AcqRel" not in ords[-1]:
                 return "rule", "atomic %s with ordering %s is valid" % (nme.split("::")[-1], ords[-1])
     elif site.kind.startswith("explicit:debug_assert"):
         # debug_assert!/debug_assert_eq!/debug_assert_ne!: a development check of an internal invariant, compiled out of the
@@ -322,6 +362,23 @@ def discharge_site(prog, ctx, n, site, fa, tb, eng, reviewed, used_reviews, nume
     if (n, site.key) in reviewed:
         used_reviews.add((n, site.key))
         return "reviewed", reviewed[(n, site.key)]["reason"]
+    # the reviewed function was renamed: its old name is gone, a function of the same impl / module has the same site key and the very same
+    # multiset of callees as recorded at review time
+    scope_ = n.rsplit("::", 1)[0]
+    for (fn, key), e in reviewed.items():
+        if key == site.key and fn != n and fn not in prog.bodies and fn.rsplit("::", 1)[0] == scope_ and e.get("fingerprint") and \
+                e["fingerprint"] == body_fingerprint(prog, n):
+            used_reviews.add((fn, key))
+            return "reviewed", "(review of %s, renamed, body unchanged) %s" % (fn.split("::")[-1], e["reason"])
+    # an unwrap-like site whose receiver expression is the one reviewed in a sibling function of the same impl / module (moved into or
+    # out of a helper): the review speaks about that expression
+    if site.kind == "call" or site.kind.startswith("call"):
+        subj = site_subject(prog, n, site, tb)
+        if subj and len(subj) > 12 and "(" in subj:
+            for (fn, key), e in reviewed.items():
+                if e.get("subject") == subj and key.split("#")[0] == site.key.split("#")[0] and fn != n and fn.rsplit("::", 1)[0] == scope_:
+                    used_reviews.add((fn, key))
+                    return "reviewed", "(review of the same unwrapped expression in %s, same impl) %s" % (fn.split("::")[-1], e["reason"])
     if site.kind.startswith("assert"):
         # the same checked expression (kind + operands, parameters by name) reviewed in a sibling function of the same impl /
         # module: the site was moved (helper extraction); `unwrap`-like call sites carry no operands and are never transferred
